@@ -269,7 +269,9 @@ func (r *dbRunner) runSession(si int, s dbSession) (res sessionResult) {
 		w.GoClient("main", func() {
 			defer func() { fin <- struct{}{} }()
 			res.OpenSeq = w.Emit(simrt.Event{Kind: simrt.EvMark, Note: "open"})
+			w.Phase = "open"
 			err := db.Open()
+			w.Phase = ""
 			res.OpenRetSeq = w.Emit(simrt.Event{Kind: simrt.EvMark, Note: "opened"})
 			if err != nil {
 				res.OpenErr = err
